@@ -157,7 +157,7 @@ func spawnMetaVictim(n gen.Node, parent gen.PID, label string) (*victim, error) 
 
 func runMeta(c mcase, scenario string) {
 	id := c.id()
-	if !hk.Want(id) {
+	if !hk.Want(id) || breakerOpen() {
 		return
 	}
 	r := &result{}
